@@ -148,6 +148,16 @@ struct Parts {
 }
 
 impl SparseVector {
+    /// Verification hook: assembles a vector from its serialized parts, enabling the supports as `load` does.
+    #[cfg(simple_sds_verif)]
+    #[doc(hidden)]
+    pub fn verif_from_parts(len: usize, high: BitVector, low: IntVector) -> SparseVector {
+        let mut high = high;
+        high.enable_select();
+        high.enable_select_zero();
+        SparseVector { len, high, low, }
+    }
+
     // Stop binary search in `select_zero` when there are at most this many runs left.
     const BINARY_SEARCH_THRESHOLD: usize = 16;
 
